@@ -25,6 +25,7 @@ mod c09x;
 mod c10;
 mod c11;
 mod c12;
+mod c12cff2;
 mod c13;
 mod c14;
 mod c15;
